@@ -63,6 +63,12 @@ func runDecode(f func(r io.ReadSeeker) (exif2.Exif, error), b []byte) (d decodeR
 	return
 }
 
+// runDecodeReader calls f on a reader the caller has prepared (e.g. positioned).
+func runDecodeReader(f func(r io.ReadSeeker) (exif2.Exif, error), r io.ReadSeeker) (d decodeResult) {
+	d.Panic = mc.Guard(func() { d.Exif, d.Err = f(r) })
+	return
+}
+
 // runDecodeChunked calls f on a reader that delivers at most k bytes per Read (k = 0: as much as asked).
 func runDecodeChunked(f func(r io.ReadSeeker) (exif2.Exif, error), b []byte, k int) (d decodeResult) {
 	if k == 0 {
